@@ -702,3 +702,23 @@ PLAN['C05']['stages'] = lambda tier, seed: (
           invariants=False)])
 PLAN['C05']['bounds'] = {k: v + '; every encoding also from states reached through one undo (every undone block) or one serialization round trip: n<=%d, adds 0..2' % (4 if k == 'quick' else 5)
                          for k, v in PLAN['C05']['bounds'].items()}
+
+
+def drive_big(tier):
+    q = tier == 'quick'
+    return {'kind': 'drive', 'name': 'drive_big', 'cmd': 'drive', 'trace_module': 'CoreTrace',
+            'trace_cfg': {'invariants': ['TraceReport']},
+            'x': 'big=1,histories=%d,maxn=%d' % (2 if q else 6, 9000 if q else 12000), 'timeout': 900 if q else 3600}
+
+
+BIG_RULE = (' Large forests: a few histories with thousands of leaves (one block of 6000-8000 additions; every fourth leaf of a quarter '
+            'deleted, then the rest of those groups - thousands of targets on rows 0 and 1 in shuffled order; a tall subtree thinned '
+            'out; a random third deleted; undo; another block) run on Stump, Pollard and full/partial MapPollard. The roots every '
+            'instance shows are validated by TLC (spec/CoreTrace.tla); positions of 400 random slots, proofs of 100 random leaves '
+            '(pointer forest = map forest, verified), GetProofSubset with 70 wants in shuffled order against the prover, and a '
+            'serialization round trip of the partial forest (node by node, flags included) are compared across implementations.')
+for _p in ('C01', 'C02', 'C10', 'C13', 'C14'):
+    PLAN[_p]['stages'] = (lambda f: (lambda tier, seed: f(tier, seed) + [drive_big(tier)]))(PLAN[_p]['stages'])
+    PLAN[_p]['rule'] += BIG_RULE
+    for _t in ('quick', 'thorough'):
+        PLAN[_p]['bounds'][_t] += '; large forests: %s' % ('2 histories up to 9000 leaves' if _t == 'quick' else '6 histories up to 12000 leaves')
